@@ -18,6 +18,17 @@ func main() {
 	switch os.Args[1] {
 	case "func":
 		cmdFunc(os.Args[2:])
+	case "list":
+		p, err := eng.LoadProgram("/repo", strings.Split(os.Args[2], ","))
+		if err != nil {
+			fmt.Println(err)
+			os.Exit(2)
+		}
+		for _, k := range p.SortedFuncKeys() {
+			if strings.HasPrefix(k, eng.ModPath) {
+				fmt.Println(k)
+			}
+		}
 	case "check":
 		os.Exit(eng.CmdCheck(os.Args[2:]))
 	default:
